@@ -788,10 +788,16 @@ Reg const r_loop{
 // try_call<ExcA>: return / throw ExcA / throw a class derived from ExcA / throw an unrelated ExcB
 struct ExcA
 {
+  explicit ExcA(int x) : v(x) {}
+  ExcA(ExcA const &) = default;
+  virtual ~ExcA() = default;
+  virtual int dynamic_tag() const { return 0; }
   int v;
 };
 struct ExcA2 : ExcA
 {
+  explicit ExcA2(int x) : ExcA(x) {}
+  int dynamic_tag() const override { return 1; }
 };
 struct ExcB
 {
@@ -805,6 +811,7 @@ void try_call_case(i64 what_, i64 p_, i64 t_)
   int fcalls = 0;
   Calls conv;
   int got = -2;
+  int seen_tag = -1;
   try
   {
     ED const r = fcppt::either::try_call<ExcA>(
@@ -813,12 +820,12 @@ void try_call_case(i64 what_, i64 p_, i64 t_)
           switch (what)
           {
           case 1: throw ExcA{p};
-          case 2: throw ExcA2{{p}};
+          case 2: throw ExcA2{p};
           case 3: throw ExcB{p};
           default: return D(p);
           }
         },
-        [&conv, t](ExcA const &x) { conv.hit(x.v); return E(dig(t, x.v, 3)); });
+        [&conv, &seen_tag, t](ExcA const &x) { conv.hit(x.v); seen_tag = x.dynamic_tag(); return E(dig(t, x.v, 3)); });
     got = code(r);
   }
   catch (ExcB const &x)
@@ -830,6 +837,9 @@ void try_call_case(i64 what_, i64 p_, i64 t_)
   static std::string const kr[] = {std::string("either::try_call|result|") + cls[0], std::string("either::try_call|result|") + cls[1], std::string("either::try_call|result|") + cls[2], std::string("either::try_call|result|") + cls[3]};
   static std::string const kc[] = {std::string("either::try_call|calls|") + cls[0], std::string("either::try_call|calls|") + cls[1], std::string("either::try_call|calls|") + cls[2], std::string("either::try_call|calls|") + cls[3]};
   chk(got == want, kr[what].c_str(), [&] { return "try_call gave " + std::to_string(got) + ", expected " + std::to_string(want) + " (0..2 failure, 3..5 success, 100+k: ExcB k escaped)"; });
+  // the converter is handed the caught exception object itself (not a sliced copy of its base)
+  if (what == 1 || what == 2)
+    chk(seen_tag == (what == 2 ? 1 : 0), "either::try_call|converter-argument|dynamic-type-of-the-thrown-object", [&] { return std::string("the exception converter saw an object of dynamic type ") + (seen_tag == 1 ? "derived" : seen_tag == 0 ? "base" : "?") + ", thrown was " + (what == 2 ? "derived" : "base"); });
   chk(fcalls == 1 && conv.exactly((what == 1 || what == 2) ? p : -1), kc[what].c_str(), [&] { return "function called " + std::to_string(fcalls) + " times, exception converter " + conv.str(); });
 }
 Reg const r_try_call{
